@@ -21,11 +21,15 @@ CONSTANTS
   FdKinds = {"same"}
   TrustFd = FALSE
   CommitAfterRead = TRUE
+  Bases = {0}
+  TellOffsets = TRUE
+  FreshLists = TRUE
 SPECIFICATION Spec
 INVARIANT TypeOK
 INVARIANT IndexExact
 INVARIANT Refines
 PROPERTY SameResult
+PROPERTY NamesExact
 PROPERTY Isolation
 PROPERTY RExact
 PROPERTY RLinesNL
